@@ -2,8 +2,11 @@ package panos
 
 import (
 	"fmt"
+	"maps"
+	"slices"
 	"sort"
 
+	"github.com/hknutzen/Netspoc-Approve/go/pkg/errlog"
 	"github.com/pkg/diff/myers"
 )
 
@@ -11,6 +14,12 @@ func diffConfig(a, b *panVsys, vsysPath string) []string {
 	sortMembers(a)
 	sortMembers(b)
 	ab := rulesPairFrom(a, b)
+	for _, v := range []vsysInfo{ab.a, ab.b} {
+		checkRecursion("address-group", v.groups,
+			func(g *panAddressGroup) []string { return g.Members })
+		checkRecursion("service-group", v.sGroups,
+			func(g *panServiceGroup) []string { return g.Members })
+	}
 	ab.markObjects(b.Rules)
 	ab.genUniqRuleNames()
 	ab.genUniqGroupNames()
@@ -18,6 +27,36 @@ func diffConfig(a, b *panVsys, vsysPath string) []string {
 	result := append(ab.transferNeededObjects(vsysPath), ruleCmds...)
 	result = append(result, ab.removeUnneededObjects(vsysPath)...)
 	return result
+}
+
+// Abort if some group is, directly or indirectly, member of itself.
+// Otherwise comparing groups would recurse endlessly.
+func checkRecursion[G any](
+	kind string, m map[string]G, members func(G) []string) {
+
+	const (
+		visiting = iota + 1
+		done
+	)
+	state := make(map[string]int)
+	var visit func(name string)
+	visit = func(name string) {
+		g, found := m[name]
+		if !found || state[name] == done {
+			return
+		}
+		if state[name] == visiting {
+			errlog.Abort("%s '%s' must not be member of itself", kind, name)
+		}
+		state[name] = visiting
+		for _, n := range members(g) {
+			visit(n)
+		}
+		state[name] = done
+	}
+	for _, name := range slices.Sorted(maps.Keys(m)) {
+		visit(name)
+	}
 }
 
 type vsysInfo struct {
